@@ -3,6 +3,7 @@ package rules
 import (
 	"fmt"
 	"go/types"
+	"os"
 	"sort"
 	"strings"
 
@@ -399,11 +400,129 @@ func pathDisjuncts(f *ir.Func, b *ssa.BasicBlock, depth int, onPath map[*ssa.Bas
 		}
 		out = append(out, crossConds(pf, edge)...)
 		if len(out) > 64 {
+			out = mergeDisjuncts(out)
+		}
+		if len(out) > 64 {
 			return nil
 		}
 	}
 	if out == nil {
 		return [][]Cond{{}}
+	}
+	if len(b.Preds) > 1 && len(out) > 8 {
+		out = mergeDisjuncts(out)
+	}
+	return out
+}
+
+// mergeDisjuncts simplifies a disjunction of conjunctions without changing its meaning: duplicate disjuncts are
+// dropped and two disjuncts that agree on everything except one literal, which one asserts and the other denies,
+// are replaced by their common part (A∧l ∨ A∧¬l ≡ A). Diamonds that re-join (if/else assigning a sign, a rounding
+// mode) therefore do not multiply the number of paths remembered downstream.
+func mergeDisjuncts(ds [][]Cond) [][]Cond {
+	negOf := func(c Cond) string {
+		switch c.Op {
+		case "lt":
+			return Cond{Op: "le", A: c.B, B: c.A, Pol: true}.String()
+		case "le":
+			return Cond{Op: "lt", A: c.B, B: c.A, Pol: true}.String()
+		}
+		n := c
+		n.Pol = !c.Pol
+		return n.String()
+	}
+	type dj struct {
+		lits map[string]Cond
+		ord  []string
+	}
+	mk := func(d []Cond) dj {
+		x := dj{lits: map[string]Cond{}}
+		for _, c := range d {
+			k := c.String()
+			if _, ok := x.lits[k]; !ok {
+				x.lits[k] = c
+				x.ord = append(x.ord, k)
+			}
+		}
+		return x
+	}
+	key := func(x dj) string {
+		ks := append([]string{}, x.ord...)
+		sort.Strings(ks)
+		return strings.Join(ks, "\x00")
+	}
+	var set []dj
+	have := map[string]bool{}
+	for _, d := range ds {
+		x := mk(d)
+		if k := key(x); !have[k] {
+			have[k] = true
+			set = append(set, x)
+		}
+	}
+	for changed, rounds := true, 0; changed && rounds < 64; rounds++ {
+		changed = false
+	outer:
+		for i := 0; i < len(set); i++ {
+			for j := i + 1; j < len(set); j++ {
+				x, y := set[i], set[j]
+				if len(x.lits) != len(y.lits) {
+					continue
+				}
+				diff := ""
+				n := 0
+				for _, k := range x.ord {
+					if _, ok := y.lits[k]; !ok {
+						diff = k
+						n++
+					}
+				}
+				if n != 1 {
+					continue
+				}
+				// the literal only y has must be exactly the negation of the literal only x has
+				ng := negOf(x.lits[diff])
+				if _, ok := y.lits[ng]; !ok {
+					continue
+				}
+				if _, both := x.lits[ng]; both {
+					continue
+				}
+				m := dj{lits: map[string]Cond{}}
+				for _, k := range x.ord {
+					if k != diff {
+						m.lits[k] = x.lits[k]
+						m.ord = append(m.ord, k)
+					}
+				}
+				set = append(set[:j], set[j+1:]...)
+				if k := key(m); have[k] {
+					set = append(set[:i], set[i+1:]...)
+				} else {
+					have[k] = true
+					set[i] = m
+				}
+				changed = true
+				break outer
+			}
+		}
+	}
+	if os.Getenv("VERIF_DEBUG_MERGE") != "" && len(set) != len(ds) {
+		fmt.Fprintf(os.Stderr, "MERGE %d -> %d\n", len(ds), len(set))
+		for _, d := range ds {
+			fmt.Fprintf(os.Stderr, "   in  %v\n", d)
+		}
+		for _, x := range set {
+			fmt.Fprintf(os.Stderr, "   out %v\n", x.ord)
+		}
+	}
+	out := make([][]Cond, 0, len(set))
+	for _, x := range set {
+		d := make([]Cond, 0, len(x.ord))
+		for _, k := range x.ord {
+			d = append(d, x.lits[k])
+		}
+		out = append(out, d)
 	}
 	return out
 }
@@ -559,6 +678,38 @@ func (c *Ctx) OnlyWhen(fnSpec, callee, cond, desc string) {
 		if !found {
 			c.add("G", fnSpec, role, desc, report.Violated, "call not under the condition; conditions in force: "+short(seen), c.posOf(call))
 			return
+		}
+	}
+	c.add("G", fnSpec, role, desc, report.OK, fmt.Sprintf("%d site(s)", len(calls)), c.posOf(calls[0]))
+}
+
+// NotUnder: no call to callee in fn is control-dependent on cond (in either polarity): on every feasible path
+// condition of the call site, neither cond nor its negation is among the facts. Used for "the estimate path and
+// the execution path perform the same state transition": the update may not hide behind the mode flag.
+func (c *Ctx) NotUnder(fnSpec, callee, cond, desc string) {
+	role := "notunder/" + callee + "/" + cond
+	callee, cond = c.X(callee), c.X(cond)
+	f := c.Fn(fnSpec)
+	if f == nil {
+		return
+	}
+	calls := c.sites(f, callee)
+	if len(calls) == 0 {
+		c.add("G", fnSpec, role, desc, report.Violated, "no call to "+callee, c.fnPos(f))
+		return
+	}
+	pcs := []Cond{ParseCond(cond), ParseCond("not(" + cond + ")")}
+	for _, call := range calls {
+		// dominating branch edges (control dependence as written), not path facts: a call after the join of
+		// `if flag {…}` is reached on both polarities and does not depend on the flag
+		for _, g := range f.GuardsAt(call.Block()) {
+			cd := Normalize(f.Term(g.Cond), g.Polarity)
+			for _, pc := range pcs {
+				if MatchCond(pc, cd) {
+					c.add("G", fnSpec, role, desc, report.Violated, "call depends on "+cd.String(), c.posOf(call))
+					return
+				}
+			}
 		}
 	}
 	c.add("G", fnSpec, role, desc, report.OK, fmt.Sprintf("%d site(s)", len(calls)), c.posOf(calls[0]))
